@@ -68,6 +68,48 @@ CHECKS.update({
         ref="7 (C15), 8"),
 })
 
+GEN_NOTE = ("trusted: TLC; the harness walkers (protoreflect for google-v2 types, struct tags for gogo types) that convert between generated structs and the abstract "
+            "message without calling generated methods; dynamicpb as cross-check (spec/reference disagreement = inconclusive). Coverage is as wide as the corpus: "
+            "feature-matrix + atomic schemas x {gogo, google-v2} x option sets {default, filepermessage, enableunsafedecode}")
+CHECKS.update({
+    "C04": dict(
+        technique="TLA+ spec (Message: ParseMsg/EncMsg/RequiredOK over schema-as-data) + TLC model checking (MCMessage) + TLC trace validation of recorded Size/Marshal/MarshalTo events of freshly generated code",
+        text="the plug-in rebuilt from /repo generates code for the corpus; for every type every field alone at each boundary value (lists of 1/2/3/31/32/33, empty nested "
+             "messages, map and oneof shapes) and seeded random combinations are marshaled; TLC requires no panic, len(Marshal) = Size, MarshalTo into make([]byte, Size) "
+             "writing exactly Size bytes (poisoned spare capacity) with the same content. MCMessage validates the specification itself (round trip, concatenation = merge law).",
+        note=GEN_NOTE, ref="7 (C04), Appendix B"),
+    "C05": dict(
+        technique="same pipeline as C04; verdict = Message!ParseMsg(schema, bytes) equals the abstract message the value was built from (presence-aware), cross-checked with dynamicpb",
+        text="the bytes of every C04 case are parsed by the specification's reference unmarshal from the schema alone and must equal the original abstract message including field "
+             "presence (no phantom fields, nothing dropped, no value altered); dynamicpb parses the same bytes and must agree with the specification.",
+        note=GEN_NOTE, ref="7 (C05)"),
+    "C06": dict(
+        technique="TLA+ spec (Message!ParseMsg with merge / last-wins / packed-unpacked / map-entry semantics, validated by MCMessage's concatenation law) + TLC trace validation of generated Unmarshal on legal encoding variants",
+        text="value trees are rendered by an independent protowire encoder into legal variants (field order permuted, packing flipped or split into several runs, singular "
+             "scalars duplicated, sub-messages split over two occurrences, map entries value-first or with key/value omitted, unknown fields interleaved); the generated Unmarshal "
+             "runs on a destination pre-populated with other content and its projection must equal the specification's parse of the same bytes.",
+        note=GEN_NOTE, ref="7 (C06)"),
+    "C07": dict(
+        technique="same traces as C06, continued with Size and Marshal of the unmarshaled message; TLC compares the unknown bytes (recursively) of ParseMsg(output) with those of the input and Size with len",
+        text="every C06 variant carrying unknown fields (all four wire types, numbers below/between/above known ones up to 2^29-1, top level and nested) must re-emit them byte for byte and count them in Size.",
+        note=GEN_NOTE, ref="7 (C07)"),
+    "C08": dict(
+        technique="TLA+ spec (Message!ParseMsg as reference outcome) + TLC trace validation of generated Unmarshal on mutated encodings (truncation, substitution, length inflation, random bytes)",
+        text="no panic, allocation bounded by 256*len+64KiB per call, and whenever both the generated Unmarshal and the reference runtime (dynamicpb) accept an input the decoded messages are equal.",
+        note=GEN_NOTE + "; allocation measured with runtime.ReadMemStats", ref="7 (C08)"),
+    "C16": dict(
+        technique="TLA+ spec (Generator: documented naming, GenOK) + TLC model checking of the naming function (MCGenerator, non-injectivity kept as expected violation) + TLC judging one recorded plug-in run per corpus file x flavour x option set",
+        text="exhaustive over the corpus product (87 schema files x {gogo, google-v2} x 3 option sets): the plug-in must succeed twice (different cwd, GOMAXPROCS, TZ) with byte-identical "
+             "output, emit each documented name exactly once, and the output must parse (go/parser) and compile with the runtime's own generated types (go build).",
+        note="trusted: TLC, go/parser and go build as sensors for 'valid Go that compiles'; the runtime generators (protoc-gen-go, protoc-gen-gogo) driven without protoc through the plug-in protocol",
+        ref="7 (C16), 5"),
+    "C17": dict(
+        technique="TLA+ spec (Message!RequiredOK, recursive) + TLC trace validation of Marshal and Unmarshal events of the proto2 corpus types with subsets of required fields unset at every nesting position",
+        text="Marshal must fail iff RequiredOK is false for the abstract message (top level, singular nested, repeated element, map value, oneof member; including the all-unset message "
+             "of encoded size 0); Unmarshal must fail on encodings whose reference parse lacks a required field (including the empty input) and must not report a required-field error otherwise.",
+        note=GEN_NOTE, ref="7 (C17)"),
+})
+
 NOT_YET = {
     "C04": "check not built yet (generated-code corpus pipeline in progress)",
     "C05": "check not built yet (generated-code corpus pipeline in progress)",
